@@ -300,12 +300,23 @@ impl<T> AsRef<str> for SourceText<T> where T: AsRef<str> {
 }
 
 
+/// Returns the largest char boundary of `text` that is not greater than
+/// `index`.
+fn floor_char_boundary(text: &str, index: usize) -> usize {
+    let mut end = index.min(text.len());
+    while !text.is_char_boundary(end) {
+        end -= 1;
+    }
+    end
+}
+
 impl<T> std::fmt::Display for SourceText<T> where T: AsRef<str> {
     fn fmt(&self, f: &mut std::fmt::Formatter<'_>) -> std::fmt::Result {
         let text = self.as_str();
 
         if text.len() > SOURCE_TEXT_DISPLAY_LEN {
-            write!(f, "{}...", &text[0..SOURCE_TEXT_DISPLAY_LEN])?;
+            let end = floor_char_boundary(text, SOURCE_TEXT_DISPLAY_LEN);
+            write!(f, "{}...", &text[0..end])?;
         } else {
             write!(f, "{text}")?;
         };
@@ -318,7 +329,8 @@ impl<T> std::fmt::Debug for SourceText<T>  where T: AsRef<str> {
     fn fmt(&self, f: &mut std::fmt::Formatter<'_>) -> std::fmt::Result {
         let text = self.as_str();
         let src = if text.len() > SOURCE_TEXT_DEBUG_LEN {
-            format!("{}...", &text[0..SOURCE_TEXT_DEBUG_LEN])
+            let end = floor_char_boundary(text, SOURCE_TEXT_DEBUG_LEN);
+            format!("{}...", &text[0..end])
         } else {
             format!("{text}")
         };
